@@ -14,7 +14,9 @@ import (
 func init() {
 	register("C08", &propDef{
 		Title: "A finished bundle contains everything that was added or discovered",
-		Rules: []func(*Checker){ruleC08NoDrop, ruleC08Drain, ruleC08Callbacks, ruleC08Manifest, ruleC08SameJoin, ruleC08Lookup, ruleC08Meta, ruleCopiedWhenEmpty("C08.metacopy"), ruleGuardOwnField("C08.metaguard"), ruleArgOrder("C08.argorder"), ruleTracerNonNil("C08.tracer"), ruleNameAgreement("C08.names", "sourcebundle"), ruleC08DirName, ruleRecordComplete("C08.complete"), ruleLiteralAgreement("C08.fields", "sourcebundle", nil), ruleMapFieldsMade("C08.mapinit"), ruleCtorParamsUsed("C08.ctorparams"), ruleFetchMemoOnly("C08.fetchmemo"), ruleSameKeyForm("C08.keyform"), ruleExhaustiveTypeSwitch("C08.exhaustive"), ruleLoopVarAddrKept("C08.loopvar", "/sourcebundle"), aliasRuleFiltered(ruleC13Names, "C13.names", "C08.contenthash", 1, func(o Oblig) bool { return strings.Contains(o.Key, "directory name is a content hash") }), ruleDeprecationKeptWhole("C08.notekept"), aliasRule(ruleC11JoinOrder, "C11.joinorder", "C08.finaladdr", 3), ruleQueuesDrained("C08.drained")},
+		Rules: []func(*Checker){ruleC08NoDrop, ruleC08Drain, ruleC08Callbacks, ruleC08Manifest, ruleC08SameJoin, ruleC08Lookup, ruleC08Meta, ruleCopiedWhenEmpty("C08.metacopy"), ruleGuardOwnField("C08.metaguard"), ruleArgOrder("C08.argorder"), ruleTracerNonNil("C08.tracer"), ruleNameAgreement("C08.names", "sourcebundle"), ruleC08DirName, ruleRecordComplete("C08.complete"), ruleLiteralAgreement("C08.fields", "sourcebundle", nil), ruleMapFieldsMade("C08.mapinit"), ruleCtorParamsUsed("C08.ctorparams"), ruleFetchMemoOnly("C08.fetchmemo"), ruleSameKeyForm("C08.keyform"), ruleExhaustiveTypeSwitch("C08.exhaustive"), ruleLoopVarAddrKept("C08.loopvar", "/sourcebundle"), aliasRuleFiltered(ruleC13Names, "C13.names", "C08.contenthash", 1, func(o Oblig) bool { return strings.Contains(o.Key, "directory name is a content hash") }), ruleDeprecationKeptWhole("C08.notekept"), aliasRule(ruleC11JoinOrder, "C11.joinorder", "C08.finaladdr", 3), ruleQueuesDrained("C08.drained"),
+			// a relative dependency resolves inside the package that declared it: the sub-path of what the resolvers return is what the escape-refusing join let through
+			aliasRuleFiltered(ruleC06Ctor, "C06.ctor", "C08.inside", 2, func(o Oblig) bool { return strings.Contains(o.Key, "ResolveRelative") && strings.Contains(o.Key, "subPath") })},
 		NotDecided: []string{
 			"transitive closure over arbitrary dependency graphs and the content of fetched files (run-time facts)",
 			"that looked-up paths exist on disk",
@@ -25,6 +27,8 @@ func init() {
 		Rules: []func(*Checker){ruleC09Fields, ruleC09Archive, ruleChecksum("C09.checksum"), ruleC06ManifestAs("C09.addrs"),
 			ruleRootSymmetric("C09.symmetric"), ruleLinkPrecise("C09.linkprecise"), ruleC09Answers, ruleLocalMemo("C09.localmemo"), ruleGuardOwnField("C09.metaguard"), ruleRestore("C09.restore"), ruleMeta("C09.meta"), ruleC04Accept2("C09.links"), ruleEntryNameAsSpelled("C09.namekept"), ruleNameAgreement("C09.names", "sourcebundle"), aliasRule(ruleC02Omit, "C02.omit", "C09.omit", 3), ruleRefusalsOfPack("C09.packrefusals"), aliasRuleFiltered(ruleBuilderAbsDir("C10.absdir"), "C10.absdir", "C09.absdir", 1, func(o Oblig) bool { return strings.Contains(o.Key, "rootDir") }),
 			aliasRuleFiltered(ruleC02LinkTarget, "C02.linktarget", "C09.linktarget", 1, func(o Oblig) bool { return strings.Contains(o.Key, "Unpack") }),
+			// extracting the archive of a bundle skips no entry it has not looked at: an entry skipped by its header format is a file of the bundle that is missing afterwards
+			aliasRuleFiltered(ruleC12Whole, "C12.whole", "C09.noskip", 1, func(o Oblig) bool { return strings.Contains(o.Key, "back edge") }),
 			aliasRuleFiltered(ruleC06CanonURL, "C06.canonurl", "C09.canonkey", 1, func(o Oblig) bool { return strings.Contains(o.Key, "canonical") }),
 			aliasRuleFiltered(ruleC13Maps, "C13.maps", "C09.lookup", 3, func(o Oblig) bool {
 				return strings.Contains(o.Key, "sourcebundle.Bundle)") || strings.Contains(o.Key, "sourcebundle.OpenDir/")
@@ -37,7 +41,9 @@ func init() {
 	register("C10", &propDef{
 		Title: "Bundle package directories are sanitised",
 		Rules: []func(*Checker){ruleC10Walked, ruleC10Exits, ruleC10Links, aliasRuleFiltered(ruleC13Names, "C13.names", "C10.hash", 1, func(o Oblig) bool { return strings.Contains(o.Key, "directory name is a content hash") }), ruleC10Tmp, ruleC10Inside, ruleC03PruneAs("C10.ignored"), ruleC03BundleAs("C10.removed"), ruleBuilderAbsDir("C10.absdir"), ruleBundleWalkChain("C10.chain"),
-			aliasRule(ruleC03Parse, "C03.parse", "C10.parse", 3), aliasRule(ruleC03LastWins, "C03.lastwins", "C10.lastwins", 1), aliasRule(ruleC03Glob, "C03.glob", "C10.glob", 3), aliasRule(ruleC03MatchErr, "C03.matcherr", "C10.matcherr", 1), ruleMatchByRegexpOnly("C10.byregexp")},
+			aliasRule(ruleC03Parse, "C03.parse", "C10.parse", 3), aliasRule(ruleC03LastWins, "C03.lastwins", "C10.lastwins", 1), aliasRule(ruleC03Glob, "C03.glob", "C10.glob", 3), aliasRule(ruleC03MatchErr, "C03.matcherr", "C10.matcherr", 1), ruleMatchByRegexpOnly("C10.byregexp"),
+			// the package's own rule file is found the way Pack finds it: a link to a regular file inside the package is a rule file
+			aliasRuleFiltered(ruleC03RuleFile, "C03.rulefile", "C10.rulefile", 1, func(o Oblig) bool { return strings.Contains(o.Key, "LoadPackageIgnoreRules") })},
 		NotDecided: []string{
 			"what filepath.EvalSymlinks resolves to; races with other processes modifying the temporary directory",
 			"what the fetcher itself writes",
@@ -45,7 +51,7 @@ func init() {
 	})
 	register("C17", &propDef{
 		Title: "Registry sources resolve to the newest allowed version",
-		Rules: []func(*Checker){ruleC17Dep, ruleC17None, ruleC17Final, ruleCtxNonNil("C17.ctx"), ruleDeprecationKeptWhole("C17.notekept"), ruleSelectionBeforeAnswer("C17.selected"), ruleLoopVarAddrKept("C17.loopvar", "/sourcebundle"), aliasRuleFiltered(ruleC08NoDrop, "C08.nodrop", "C17.nodrop", 1, func(o Oblig) bool { return strings.Contains(o.Key, "pendingRegistry") })},
+		Rules: []func(*Checker){ruleC17Dep, ruleC17None, ruleC17Final, ruleCtxNonNil("C17.ctx"), ruleDeprecationKeptWhole("C17.notekept"), ruleSelectionBeforeAnswer("C17.selected"), ruleLoopVarAddrKept("C17.loopvar", "/sourcebundle"), aliasRuleFiltered(ruleC08NoDrop, "C08.nodrop", "C17.nodrop", 1, func(o Oblig) bool { return strings.Contains(o.Key, "pendingRegistry") }), ruleEveryOfferedVersionListed("C17.offered")},
 		NotDecided: []string{
 			"which version is newest (ordering inside go-versions, trusted library)",
 			"'first listed' vs 'newest' when both depend on the same inputs is only caught through the library-callee identity",
@@ -53,7 +59,7 @@ func init() {
 	})
 	register("C18", &propDef{
 		Title: "Bundle path lookups stay inside the bundle and invert each other",
-		Rules: []func(*Checker){ruleC18DirName, ruleC18Join, ruleC18Reverse, ruleRootSymmetric("C18.symmetric"), ruleCutFoundNotRefused("C18.pkgroot"), ruleDirNameAsWritten("C18.rawname"), ruleForwardPathLexical("C18.lexicalforward"), ruleForwardRefusesUnknownOnly("C18.forward")},
+		Rules: []func(*Checker){ruleC18DirName, ruleC18Join, ruleC18Reverse, ruleRootSymmetric("C18.symmetric"), ruleCutFoundNotRefused("C18.pkgroot"), ruleDirNameAsWritten("C18.rawname"), ruleForwardPathLexical("C18.lexicalforward"), ruleForwardRefusesUnknownOnly("C18.forward"), ruleAbsOfTheGivenPath("C18.absarg")},
 		NotDecided: []string{
 			"inversion as an equation on strings (forward then reverse lookup returning the same path)",
 		},
